@@ -15,5 +15,10 @@ with open("/verif/seeded/INDEX.md", "w") as f:
     caught = sum(1 for d in rows if d["result"] == "caught")
     first = sum(1 for d in rows if d["first_result"] == "caught")
     f.write("\n%d changes; %d detected on the first run, %d detected now; the rest are listed with the reason.\n" % (n, first, caught))
+    ben = [json.load(open(m)) for m in sorted(glob.glob("/verif/seeded/B*-B*/meta.json"))]
+    if ben:
+        f.write("\n## Benign changes (must NOT be reported)\n\nCorrect, behaviour-changing edits written by independent sub-agents; every listed check has to stay quiet on them.\n\n| id | what | checks run | result | note |\n|----|------|------------|--------|------|\n")
+        for d in ben:
+            f.write("| %s | %s | %s | %s | %s |\n" % (d["id"], d["what"].replace("|", "/"), " ".join(d["checks_run"]), d["result"], d.get("note", "").replace("|", "/")))
     f.write("\nOwn mutation patches (M01-...) are the `.diff` files next to this index; DESIGN.md 11.4 and 12 say which check catches which.\n")
 print(len(rows), "entries")
